@@ -304,7 +304,7 @@ func visitInstr(fr *frame, instr ssa.Instruction) continuation {
 		if ln < 0 || cp < ln {
 			i.raise("makeslice: len out of range")
 		}
-		if cp > 1<<24 {
+		if cp > engineAllocCap {
 			i.abort("budget", "allocation of %d elements in %s is beyond what the engine executes", cp, fr.fn)
 		}
 		slice := make([]value, cp)
@@ -445,10 +445,23 @@ func (i *interpreter) makeSize(v value, what string) int64 {
 			i.cutNotes["allocation in "+callerFn(i)+" continued with one representative size"] = true
 			return int64(v)
 		}
+		// A size the code under test leaves unbounded is not enumerated: the region above the
+		// engine's allocation cap ends this path as out of budget at once (inconclusive, never a
+		// pass), instead of allocating gigabytes for each of the solver's picks; the region below
+		// it is explored as usual, preferring small sizes.
+		if t.sort.K == kBV {
+			if i.branch(i.ts.BVCmp("bvugt", t, i.ts.BV(t.sort.W, engineAllocCap))) {
+				i.abort("budget", "%s sized by a symbolic value that can exceed %d elements (unbounded in the code under test?)", what, engineAllocCap)
+			}
+			i.branch(i.ts.BVCmp("bvule", t, i.ts.BV(t.sort.W, 32))) // split: small sizes are enumerated on their own
+		}
 		return int64(i.concretize(t, what))
 	}
 	return asInt64(v)
 }
+
+// engineAllocCap: the largest slice the engine allocates (elements).
+const engineAllocCap = 1 << 20
 
 func callerFn(i *interpreter) string { return i.curFn }
 
